@@ -46,7 +46,7 @@ def run(ctx):
     q = ctx.quick
     os.environ["VH_AUTH_MOD"] = "basic"
     obs, verdicts = standard_pipeline(
-        ctx, sub="auth",
+        ctx, checked=True, sub="auth",
         mc=[("MC_Auth", "MC_Auth_basic.cfg" if q else "MC_Auth_basic_deep.cfg", dict(workers=4 if q else 8))],
         gen=[("AuthGen", "Gen_Auth_basic.cfg" if q else "Gen_Auth_basic_deep.cfg", dict(workers=1))],
         trace=TRACE, random_n=20000 if q else 300000, post_gen=_post(ctx), nontrivial=_nontrivial,
